@@ -66,6 +66,21 @@ func runC09(env *core.Env) {
 			cfgs = append(cfgs, c)
 		}
 	}
+	// ... and as a merge of two clones leaves them: a claim recorded behind the event that closed the task
+	for _, n := range []int{1, 2} {
+		for _, c := range c08Configs(n, c08Small, 3) {
+			closed := false
+			for k, t := range c.Tasks {
+				if c.live(k) && (t.State == "done" || t.State == "canceled") {
+					closed = true
+				}
+			}
+			if closed {
+				c.Variant = 8
+				cfgs = append(cfgs, c)
+			}
+		}
+	}
 	// stores whose tasks depend on each other in a cycle (each clone of a merged log added one direction): the prune
 	// policy does not mention dependencies, so it must come out the same
 	for _, c := range c08Configs(2, c08Full, 3) {
